@@ -536,3 +536,218 @@ Proof.
   intros st E. cbn in E. inversion E; subst st. split; [|constructor].
   cbn [st_stmts All sstmt_ns svar fvar fexpr fexpr_ns mexpr fcond_ns fst snd]. repeat split; auto.
 Qed.
+
+(* ================= TWO FILES: reordering the STANZAS ================= *)
+(* Every theorem above keeps ONE file and permutes the list of (stanza index, match) blocks.  The bridge to
+   "the same stanzas in another order" (Proofs/StanzaPerm.v): a second file fl' with `same_rest fl fl'` (same globals,
+   inherited names, shorthands) and `Permutation (f_stanzas fl) (f_stanzas fl')`.
+   `blocks_of fl ms`: the executed blocks — for each match the stanza found at its index, and the match.
+   `retag old ms'`: the matches of fl' with every stanza index j replaced by `old j`, the position of that stanza in fl.
+   IDEALISATION (not closed here): the stanza records of fl' are those of fl.  Textually reordering a real file also changes
+   every location and the capture indices of the merged query inside the stanzas and the matches (AUDIT G1); that
+   re-indexing is an oracle-side relation between two match lists and is not modelled. *)
+From TSG Require Import Proofs.StanzaPerm.
+
+(* the lazy run reads a file only through `same_rest` and the executed blocks *)
+Theorem lazy_run_depends_on_blocks : forall (rx : Type) t fl fl' cfg supplied budget (regexes : list rx) find call fuel ms ms' g0,
+  same_rest fl fl' -> blocks_of fl ms = blocks_of fl' ms' ->
+  run_lazy t fl cfg supplied budget regexes find call fuel ms g0 = run_lazy t fl' cfg supplied budget regexes find call fuel ms' g0.
+Proof. exact @run_lazy_blocks. Qed.
+
+(* THE BRIDGE: a permutation of the stanzas gives an injective index map `old` with fl'[j] = fl[old j]; for every
+   match list ms' of fl': its executed blocks are those of fl on the re-tagged list; if the re-tagged list is a
+   permutation of the matches ms of fl ("the matches regrouped accordingly") the executed blocks of fl' are a
+   permutation of those of fl; and the lazy run of fl' on ms' IS the lazy run of fl on the re-tagged list *)
+Theorem stanza_permutation_is_block_permutation : forall fl fl',
+  same_rest fl fl' -> Permutation (f_stanzas fl) (f_stanzas fl') ->
+  exists old : nat -> nat,
+    (forall i j, old i = old j -> i = j) /\
+    (forall j, nth_error (f_stanzas fl') j = nth_error (f_stanzas fl) (old j)) /\
+    forall ms',
+      blocks_of fl' ms' = blocks_of fl (retag old ms') /\
+      (forall ms, Permutation ms (retag old ms') -> Permutation (blocks_of fl ms) (blocks_of fl' ms')) /\
+      (forall (rx : Type) t cfg supplied budget (regexes : list rx) find call fuel g0,
+         run_lazy t fl' cfg supplied budget regexes find call fuel ms' g0 =
+         run_lazy t fl cfg supplied budget regexes find call fuel (retag old ms') g0).
+Proof. exact stanza_perm_bridge. Qed.
+
+(* conversely, whenever the executed blocks of fl' are a permutation of those of fl, the run of fl' is a run of fl on
+   a permutation of its matches *)
+Theorem block_permutation_is_match_permutation : forall fl fl' ms ms',
+  Permutation (blocks_of fl ms) (blocks_of fl' ms') ->
+  exists ms'', Permutation ms ms'' /\ blocks_of fl ms'' = blocks_of fl' ms'.
+Proof. exact blocks_perm_matches. Qed.
+
+(* THE HEADLINE THEOREMS ABOUT TWO FILES.  fl' has the stanzas of fl in another order (or, more generally, its executed
+   blocks are a permutation of those of fl); the fragment hypotheses are demanded of fl and its matches only. *)
+Theorem lazy_stanza_order_iso_partial : forall (rx : Type) (t : tree) (fl fl' : file) (supplied : globals) (regexes : list rx)
+    (find : rx -> str -> option (list (option (N * N)))) (call : ident -> graph -> list value -> res (value * graph)) (okfn : ident -> Prop),
+  (forall f, okfn f -> call_ok call f) ->
+  forall g0 : graph, gclosed (N.of_nat (length g0)) g0 ->
+  (forall glob, check_globals (f_globals fl) (globals_nested supplied) = Ok glob ->
+     forall name v, globals_get glob name = Some v -> vall (fun i => i < N.of_nat (length g0)) v) ->
+  forall (fuel : nat) (ms ms' : list (N * qmatch)) (ls : lstate) (p : polls),
+  same_rest fl fl' -> Permutation (blocks_of fl ms) (blocks_of fl' ms') -> Forall (pm_ok fl okfn) ms ->
+  run_lazy t fl config0 supplied None regexes find call fuel ms g0 = Ok (ls, p) ->
+  exists r r', (forall i, r' (r i) = i) /\ (forall i, r (r' i) = i) /\ (forall i, i < N.of_nat (length g0) -> r i = i) /\
+    exists fuel0, forall fuel', (fuel0 <= fuel')%nat -> exists ls' p',
+      run_lazy t fl' config0 supplied None regexes find call fuel' ms' g0 = Ok (ls', p') /\ graph_iso r (l_graph ls) (l_graph ls').
+Proof.
+  intros rx t fl fl' supplied regexes find call okfn Hcall g0 Hcl Hglob fuel ms ms' ls p HR HP Hok Hrun.
+  destruct (blocks_perm_matches fl fl' ms ms' HP) as (ms'' & HP' & HB).
+  destruct (lazy_block_order_iso_partial rx t fl supplied regexes find call okfn Hcall g0 Hcl Hglob fuel ms ms'' ls p HP' Hok Hrun)
+    as (r & r' & I1 & I2 & I3 & fuel0 & HF).
+  exists r, r'. repeat (split; [assumption|]). exists fuel0. intros fuel' Hf. destruct (HF fuel' Hf) as (ls' & p' & E & Hiso).
+  exists ls', p'. split; [|exact Hiso]. rewrite <- E. symmetry. apply run_lazy_blocks; assumption.
+Qed.
+
+Theorem lazy_stanza_order_fail_partial : forall (rx : Type) (t : tree) (fl fl' : file) (supplied : globals) (regexes : list rx)
+    (find : rx -> str -> option (list (option (N * N)))) (call : ident -> graph -> list value -> res (value * graph)) (okfn : ident -> Prop),
+  (forall f, okfn f -> call_ok call f) ->
+  forall g0 : graph, gclosed (N.of_nat (length g0)) g0 ->
+  (forall glob, check_globals (f_globals fl) (globals_nested supplied) = Ok glob ->
+     forall name v, globals_get glob name = Some v -> vall (fun i => i < N.of_nat (length g0)) v) ->
+  forall (fuel : nat) (ms ms' : list (N * qmatch)),
+  same_rest fl fl' -> Permutation (blocks_of fl ms) (blocks_of fl' ms') -> Forall (pm_ok fl okfn) ms ->
+  (forall r, run_lazy t fl config0 supplied None regexes find call fuel ms g0 <> Ok r) ->
+  run_lazy t fl config0 supplied None regexes find call fuel ms g0 <> OutOfFuel ->
+  forall fuel' r, run_lazy t fl' config0 supplied None regexes find call fuel' ms' g0 <> Ok r.
+Proof.
+  intros rx t fl fl' supplied regexes find call okfn Hcall g0 Hcl Hglob fuel ms ms' HR HP Hok Hno Hoof fuel' r.
+  destruct (blocks_perm_matches fl fl' ms ms' HP) as (ms'' & HP' & HB).
+  rewrite <- (run_lazy_blocks t fl fl' config0 supplied None regexes find call fuel' ms'' ms' g0 HR HB).
+  exact (lazy_block_order_fail_partial rx t fl supplied regexes find call okfn Hcall g0 Hcl Hglob fuel ms ms'' HP' Hok Hno Hoof fuel' r).
+Qed.
+
+(* with scoped variables (fragment of STEP 4) *)
+Theorem lazy_stanza_order_iso_scoped_partial : forall (rx : Type) (t : tree) (fl fl' : file) (supplied : globals) (regexes : list rx)
+    (find : rx -> str -> option (list (option (N * N)))) (call : ident -> graph -> list value -> res (value * graph)) (okfn : ident -> Prop),
+  (forall f, okfn f -> call_ok call f) ->
+  forall g0 : graph, gclosed (N.of_nat (length g0)) g0 ->
+  (forall glob, check_globals (f_globals fl) (globals_nested supplied) = Ok glob ->
+     forall name v, globals_get glob name = Some v -> vall (fun i => i < N.of_nat (length g0)) v) ->
+  forall (fuel : nat) (ms ms' : list (N * qmatch)) (ls : lstate) (p : polls),
+  same_rest fl fl' -> Permutation (blocks_of fl ms) (blocks_of fl' ms') -> Forall (pm_ok2 fl okfn) ms ->
+  run_lazy t fl config0 supplied None regexes find call fuel ms g0 = Ok (ls, p) ->
+  exists r r', (forall i, r' (r i) = i) /\ (forall i, r (r' i) = i) /\ (forall i, i < N.of_nat (length g0) -> r i = i) /\
+    exists fuel0, forall fuel', (fuel0 <= fuel')%nat -> exists ls' p',
+      run_lazy t fl' config0 supplied None regexes find call fuel' ms' g0 = Ok (ls', p') /\ graph_iso r (l_graph ls) (l_graph ls').
+Proof.
+  intros rx t fl fl' supplied regexes find call okfn Hcall g0 Hcl Hglob fuel ms ms' ls p HR HP Hok Hrun.
+  destruct (blocks_perm_matches fl fl' ms ms' HP) as (ms'' & HP' & HB).
+  destruct (lazy_block_order_iso_scoped_partial rx t fl supplied regexes find call okfn Hcall g0 Hcl Hglob fuel ms ms'' ls p HP' Hok Hrun)
+    as (r & r' & I1 & I2 & I3 & fuel0 & HF).
+  exists r, r'. repeat (split; [assumption|]). exists fuel0. intros fuel' Hf. destruct (HF fuel' Hf) as (ls' & p' & E & Hiso).
+  exists ls', p'. split; [|exact Hiso]. rewrite <- E. symmetry. apply run_lazy_blocks; assumption.
+Qed.
+
+Theorem lazy_stanza_order_fail_scoped_partial : forall (rx : Type) (t : tree) (fl fl' : file) (supplied : globals) (regexes : list rx)
+    (find : rx -> str -> option (list (option (N * N)))) (call : ident -> graph -> list value -> res (value * graph)) (okfn : ident -> Prop),
+  (forall f, okfn f -> call_ok call f) ->
+  forall g0 : graph, gclosed (N.of_nat (length g0)) g0 ->
+  (forall glob, check_globals (f_globals fl) (globals_nested supplied) = Ok glob ->
+     forall name v, globals_get glob name = Some v -> vall (fun i => i < N.of_nat (length g0)) v) ->
+  forall (fuel : nat) (ms ms' : list (N * qmatch)),
+  same_rest fl fl' -> Permutation (blocks_of fl ms) (blocks_of fl' ms') -> Forall (pm_ok2 fl okfn) ms ->
+  (forall r, run_lazy t fl config0 supplied None regexes find call fuel ms g0 <> Ok r) ->
+  run_lazy t fl config0 supplied None regexes find call fuel ms g0 <> OutOfFuel ->
+  forall fuel' r, run_lazy t fl' config0 supplied None regexes find call fuel' ms' g0 <> Ok r.
+Proof.
+  intros rx t fl fl' supplied regexes find call okfn Hcall g0 Hcl Hglob fuel ms ms' HR HP Hok Hno Hoof fuel' r.
+  destruct (blocks_perm_matches fl fl' ms ms' HP) as (ms'' & HP' & HB).
+  rewrite <- (run_lazy_blocks t fl fl' config0 supplied None regexes find call fuel' ms'' ms' g0 HR HB).
+  exact (lazy_block_order_fail_scoped_partial rx t fl supplied regexes find call okfn Hcall g0 Hcl Hglob fuel ms ms'' HP' Hok Hno Hoof fuel' r).
+Qed.
+
+(* with scoped reads inside thunks (fragment of STEP 5) *)
+Theorem lazy_stanza_order_iso_scoped_thunks_partial : forall (rx : Type) (t : tree) (fl fl' : file) (supplied : globals) (regexes : list rx)
+    (find : rx -> str -> option (list (option (N * N)))) (call : ident -> graph -> list value -> res (value * graph)) (okfn : ident -> Prop) (tnt : ident -> bool),
+  (forall f, okfn f -> call_ok call f) ->
+  forall g0 : graph, gclosed (N.of_nat (length g0)) g0 ->
+  (forall glob, check_globals (f_globals fl) (globals_nested supplied) = Ok glob ->
+     forall name v, globals_get glob name = Some v -> vall (fun i => i < N.of_nat (length g0)) v) ->
+  forall (fuel : nat) (ms ms' : list (N * qmatch)) (ls : lstate) (p : polls),
+  same_rest fl fl' -> Permutation (blocks_of fl ms) (blocks_of fl' ms') -> Forall (pm_ok3 fl okfn tnt) ms ->
+  run_lazy t fl config0 supplied None regexes find call fuel ms g0 = Ok (ls, p) ->
+  exists r r', (forall i, r' (r i) = i) /\ (forall i, r (r' i) = i) /\ (forall i, i < N.of_nat (length g0) -> r i = i) /\
+    exists fuel0, forall fuel', (fuel0 <= fuel')%nat -> exists ls' p',
+      run_lazy t fl' config0 supplied None regexes find call fuel' ms' g0 = Ok (ls', p') /\ graph_iso r (l_graph ls) (l_graph ls').
+Proof.
+  intros rx t fl fl' supplied regexes find call okfn tnt Hcall g0 Hcl Hglob fuel ms ms' ls p HR HP Hok Hrun.
+  destruct (blocks_perm_matches fl fl' ms ms' HP) as (ms'' & HP' & HB).
+  destruct (lazy_block_order_iso_scoped_thunks_partial rx t fl supplied regexes find call okfn tnt Hcall g0 Hcl Hglob fuel ms ms'' ls p HP' Hok Hrun)
+    as (r & r' & I1 & I2 & I3 & fuel0 & HF).
+  exists r, r'. repeat (split; [assumption|]). exists fuel0. intros fuel' Hf. destruct (HF fuel' Hf) as (ls' & p' & E & Hiso).
+  exists ls', p'. split; [|exact Hiso]. rewrite <- E. symmetry. apply run_lazy_blocks; assumption.
+Qed.
+
+Theorem lazy_stanza_order_fail_scoped_thunks_partial : forall (rx : Type) (t : tree) (fl fl' : file) (supplied : globals) (regexes : list rx)
+    (find : rx -> str -> option (list (option (N * N)))) (call : ident -> graph -> list value -> res (value * graph)) (okfn : ident -> Prop) (tnt : ident -> bool),
+  (forall f, okfn f -> call_ok call f) ->
+  forall g0 : graph, gclosed (N.of_nat (length g0)) g0 ->
+  (forall glob, check_globals (f_globals fl) (globals_nested supplied) = Ok glob ->
+     forall name v, globals_get glob name = Some v -> vall (fun i => i < N.of_nat (length g0)) v) ->
+  forall (fuel : nat) (ms ms' : list (N * qmatch)),
+  same_rest fl fl' -> Permutation (blocks_of fl ms) (blocks_of fl' ms') -> Forall (pm_ok3 fl okfn tnt) ms ->
+  (forall r, run_lazy t fl config0 supplied None regexes find call fuel ms g0 <> Ok r) ->
+  run_lazy t fl config0 supplied None regexes find call fuel ms g0 <> OutOfFuel ->
+  forall fuel' r, run_lazy t fl' config0 supplied None regexes find call fuel' ms' g0 <> Ok r.
+Proof.
+  intros rx t fl fl' supplied regexes find call okfn tnt Hcall g0 Hcl Hglob fuel ms ms' HR HP Hok Hno Hoof fuel' r.
+  destruct (blocks_perm_matches fl fl' ms ms' HP) as (ms'' & HP' & HB).
+  rewrite <- (run_lazy_blocks t fl fl' config0 supplied None regexes find call fuel' ms'' ms' g0 HR HB).
+  exact (lazy_block_order_fail_scoped_thunks_partial rx t fl supplied regexes find call okfn tnt Hcall g0 Hcl Hglob fuel ms ms'' HP' Hok Hno Hoof fuel' r).
+Qed.
+
+(* the form with the stanza permutation itself: fl' = the stanzas of fl in another order, its matches ms' such that
+   re-tagging them with the old positions gives a permutation of the matches of fl *)
+Theorem lazy_stanza_reorder_iso_partial : forall (fl fl' : file),
+  same_rest fl fl' -> Permutation (f_stanzas fl) (f_stanzas fl') ->
+  exists old : nat -> nat,
+    (forall j, nth_error (f_stanzas fl') j = nth_error (f_stanzas fl) (old j)) /\
+    forall (rx : Type) (t : tree) (supplied : globals) (regexes : list rx)
+      (find : rx -> str -> option (list (option (N * N)))) (call : ident -> graph -> list value -> res (value * graph)) (okfn : ident -> Prop),
+    (forall f, okfn f -> call_ok call f) ->
+    forall g0 : graph, gclosed (N.of_nat (length g0)) g0 ->
+    (forall glob, check_globals (f_globals fl) (globals_nested supplied) = Ok glob ->
+       forall name v, globals_get glob name = Some v -> vall (fun i => i < N.of_nat (length g0)) v) ->
+    forall (fuel : nat) (ms ms' : list (N * qmatch)) (ls : lstate) (p : polls),
+    Permutation ms (retag old ms') -> Forall (pm_ok fl okfn) ms ->
+    run_lazy t fl config0 supplied None regexes find call fuel ms g0 = Ok (ls, p) ->
+    exists r r', (forall i, r' (r i) = i) /\ (forall i, r (r' i) = i) /\ (forall i, i < N.of_nat (length g0) -> r i = i) /\
+      exists fuel0, forall fuel', (fuel0 <= fuel')%nat -> exists ls' p',
+        run_lazy t fl' config0 supplied None regexes find call fuel' ms' g0 = Ok (ls', p') /\ graph_iso r (l_graph ls) (l_graph ls').
+Proof.
+  intros fl fl' HR HP. destruct (stanza_perm_bridge fl fl' HR HP) as (old & _ & Hnth & Hms).
+  exists old. split; [exact Hnth|].
+  intros rx t supplied regexes find call okfn Hcall g0 Hcl Hglob fuel ms ms' ls p HPm Hok Hrun.
+  destruct (Hms ms') as (_ & HB & _).
+  exact (lazy_stanza_order_iso_partial rx t fl fl' supplied regexes find call okfn Hcall g0 Hcl Hglob fuel ms ms' ls p HR (HB ms HPm) Hok Hrun).
+Qed.
+
+(* non-vacuity: c8_file with its two stanzas SWAPPED; the matches of the swapped file in its own file order
+   [(0, m); (1, m)] execute the blocks of c8_file in the other order; the two-file theorem gives its run from the run
+   of c8_file alone *)
+Definition c8_file_swapped : file :=
+  {| f_globals := f_globals c8_file; f_inherited := f_inherited c8_file; f_shorthands := f_shorthands c8_file;
+     f_stanzas := rev (f_stanzas c8_file) |}.
+Example c08_two_files :
+  same_rest c8_file c8_file_swapped /\
+  Permutation (f_stanzas c8_file) (f_stanzas c8_file_swapped) /\ f_stanzas c8_file <> f_stanzas c8_file_swapped /\
+  Permutation (blocks_of c8_file c8_ms) (blocks_of c8_file_swapped c8_ms) /\
+  blocks_of c8_file c8_ms <> blocks_of c8_file_swapped c8_ms /\
+  exists r r', (forall i, r' (r i) = i) /\ (forall i, r (r' i) = i) /\
+    exists fuel0, forall fuel', (fuel0 <= fuel')%nat -> exists ls' p',
+      run_lazy K7.k7_tree c8_file_swapped config0 [[]] None ([] : list Regex.regex) Regex.rx_captures c8_call fuel' c8_ms [] = Ok (ls', p') /\
+      graph_iso r c8_g (l_graph ls').
+Proof.
+  assert (HR : same_rest c8_file c8_file_swapped) by (repeat split).
+  assert (HB : Permutation (blocks_of c8_file c8_ms) (blocks_of c8_file_swapped c8_ms)) by (vm_compute; apply perm_swap).
+  split; [exact HR|]. split; [apply Permutation_rev|]. split; [vm_compute; discriminate|]. split; [exact HB|].
+  split; [vm_compute; discriminate|].
+  destruct c8_run_state as (ls & p & E & Hg).
+  destruct (lazy_stanza_order_iso_partial _ K7.k7_tree c8_file c8_file_swapped [[]] [] Regex.rx_captures c8_call c8_okfn c8_call_ok
+              [] (Forall_nil _) c8_globals_ok default_fuel c8_ms c8_ms ls p HR HB c8_blocks_ok E) as (r & r' & I1 & I2 & _ & F0 & HF).
+  exists r, r'. split; [exact I1|]. split; [exact I2|]. exists F0. intros F HF0. destruct (HF F HF0) as (ls' & p' & E' & Hiso).
+  exists ls', p'. split; [exact E'|]. rewrite <- Hg. exact Hiso.
+Qed.
